@@ -742,6 +742,19 @@ def family_values():
         'zz_driver.go': '//go:build !wireinject\n// +build !wireinject\n\npackage {PKG}\n\nimport "example.com/corpus/vrt"\n\nfunc VDrive() {\n\ta, b := Inject(), Inject()\n\tvrt.A("C13", a == b && a.VID() == Base, "wire.InterfaceValue provides the written value, the same on every call")\n\tvrt.Cover("values-checked")\n}\n',
     }
     specs.append(RawSpec(files, 'wire.InterfaceValue', family='values'))
+    # InterfaceValue may be given a call (the baseline's own InterfaceValue test does): it must be evaluated once,
+    # during package initialisation, and every injector call must observe that one value / pointer
+    files = {
+        'providers.go': ('package {PKG}\n\nimport "example.com/corpus/vrt"\n\ntype I interface{ VID() int }\ntype C struct{ ID int }\nfunc (c *C) VID() int { return c.ID }\n'
+                         'var Base = vrt.ArgID("base")\nvar Made int\nfunc mk() *C { Made++; return &C{ID: Base + Made} }\ntype App struct{ A, B int }\nfunc NewApp(x I, y I) App { return App{x.VID(), y.VID()} }\n'),
+        'wire.go': ('//go:build wireinject\n// +build wireinject\n\npackage {PKG}\n\nimport "github.com/google/wire"\n\nfunc Inject() I {\n\tpanic(wire.Build(wire.InterfaceValue(new(I), mk())))\n}\n\n'
+                    'func Inject2() I {\n\tpanic(wire.Build(wire.InterfaceValue(new(I), mk())))\n}\n'),
+        'zz_driver.go': ('//go:build !wireinject\n// +build !wireinject\n\npackage {PKG}\n\nimport "example.com/corpus/vrt"\n\nfunc VDrive() {\n\tm0 := Made\n\ta, b := Inject(), Inject()\n\tc := Inject2()\n'
+                         '\tvrt.A("C13", a == b, "an interface value written as a call yields the same pointer on every injector call")\n'
+                         '\tvrt.A("C13", Made == m0 && Made == 2, "the expression of an interface value is evaluated once per written occurrence, during package initialisation, not per injector call")\n'
+                         '\tvrt.A("C13", a.VID() != c.VID() && (a.VID() == Base+1 || a.VID() == Base+2), "each written occurrence has its own value")\n\tvrt.Cover("values-checked")\n}\n'),
+    }
+    specs.append(RawSpec(files, 'wire.InterfaceValue given a call: evaluated once at initialisation', family='values'))
     # rejected forms: each in its own package
     rej = [
         ('function call', 'type T struct{ ID int }\nfunc mk() T { return T{} }', 'wire.Value(mk())', 'T'),
